@@ -131,6 +131,30 @@ def run(ctx):
                         ctx.violation("reconfigured-object-differs-from-fresh-object", a["input_reaction"],
                                       "threshold set to %s on a used object: %s; fresh object: %s" % (t, a, b), "synrbl/balancing.py:confidence_threshold")
                         break
+        # caller-chosen column names at thresholds above 0 (untraced): the rows must equal those of the default configuration
+        import copy
+
+        for t in [x for x in ts if x > 0][:2] + ([ts[-1]] if ts[-1] > 0 else []):
+            try:
+                cb = Balancer(n_jobs=12, confidence_threshold=t, reaction_col="rxn", id_col="rid")
+                out = cb.rebalance([{"rxn": r, "rid": 900 + 2 * i} for i, r in enumerate(copy.deepcopy(inputs))], output_dict=True)
+                out = [dict({k: v for k, v in r.items() if k != "rxn"}, reaction=r.get("rxn")) for r in out]
+                err = None
+            except Exception as e:
+                out, err = None, "%s: %s" % (type(e).__name__, e)
+            ctx.count("custom-columns-run")
+            fresh = runs[t]["out"]
+            if out is None or fresh is None or len(out) != len(fresh):
+                ctx.violation("rows-lost-under-column-names-and-threshold", {"threshold": t, "reaction_col": "rxn", "id_col": "rid"},
+                              "error=%s rows=%s of %s" % (err, None if out is None else len(out), len(inputs)), "synrbl/confidence_prediction.py:predict")
+                break
+            for a, b in zip(out, fresh):
+                if pipeline.hit_by_real_timeout(a) or pipeline.hit_by_real_timeout(b):
+                    continue
+                if {k: a.get(k) for k in KEYS} != {k: b.get(k) for k in KEYS}:
+                    ctx.violation("row-depends-on-column-names-under-threshold", a.get("input_reaction"),
+                                  "t=%s columns rxn/rid: %s; default columns: %s" % (t, a, b), "synrbl/confidence_prediction.py:predict")
+                    break
         ctx.sample({"thresholds": sorted(runs), "rows": len(inputs)})
         demo = [r for t in runs for r in (runs[t]["out"] or []) if r.get("solved_by") == "mcs-based" and not r.get("solved")]
         if demo:
